@@ -9,8 +9,8 @@ open TV.Alias
 variable {V : Type}
 
 /-- the checker is sound: if it accepts, no cell is reachable from both objects -/
-theorem C17_checker_sound (a b : List Cell) (h : disjointB a b = true) : ∀ c, c ∈ a → c ∉ b := by
-  sorry
+theorem C17_checker_sound (a b : List Cell) (h : disjointB a b = true) : ∀ c, c ∈ a → c ∉ b :=
+  disjointB_sound h
 
 /-- **frame theorem**: if the writable cells reachable from `a` and from `b` are disjoint (what the checker
     establishes on the walked object graphs), then *any* sequence of edits made through `a` — of any
@@ -18,14 +18,14 @@ theorem C17_checker_sound (a b : List Cell) (h : disjointB a b = true) : ∀ c, 
     are functions of `observe`) -/
 theorem C17_frame (h : Cell → V) (a b : Obj) (es : List (Cell × V))
     (hd : disjointB a.cells b.cells = true) (he : ∀ e ∈ es, e.1 ∈ a.cells) :
-    observe (applyEdits h es) b = observe h b := by
-  sorry
+    observe (applyEdits h es) b = observe h b :=
+  observe_applyEdits_of_avoid h b es (fun e hm hb => disjointB_sound hd e.1 (he e hm) hb)
 
 /-- and symmetrically for edits made through the copy -/
 theorem C17_frame_symm (h : Cell → V) (a b : Obj) (es : List (Cell × V))
     (hd : disjointB a.cells b.cells = true) (he : ∀ e ∈ es, e.1 ∈ b.cells) :
-    observe (applyEdits h es) a = observe h a := by
-  sorry
+    observe (applyEdits h es) a = observe h a :=
+  observe_applyEdits_of_avoid h a es (fun e hm ha => disjointB_sound hd e.1 ha (he e hm))
 
 /-- **copy specification**: a copy that gives every reachable cell a fresh cell (injective renaming into
     cells not reachable from the original) with the same contents reports exactly what the original
@@ -36,7 +36,20 @@ theorem C17_copy_spec (h : Cell → V) (a : Obj) (ren : Cell → Cell)
     observe (copyHeap ren a h) (copyObj ren a) = observe h a ∧
     disjointB a.cells (copyObj ren a).cells = true ∧
     observe (copyHeap ren a h) a = observe h a := by
-  sorry
+  refine ⟨?_, ?_, ?_⟩
+  · simp only [observe, copyObj, List.map_map]
+    apply List.map_congr_left
+    intro c hc
+    exact copyHeap_ren h a ren hinj c hc
+  · rw [disjointB_iff]
+    intro c hc hmem
+    simp only [copyObj, List.mem_map] at hmem
+    obtain ⟨c', hc', hren⟩ := hmem
+    exact hfresh c' hc' (hren ▸ hc)
+  · simp only [observe]
+    apply List.map_congr_left
+    intro x hx
+    exact copyHeap_of_not_fresh h a ren x (fun c hc hren => hfresh c hc (hren ▸ hx))
 
 /-- sharing a single cell is enough to leak an edit (why the checker must reject any overlap) -/
 theorem C17_shared_cell_leaks :
@@ -44,6 +57,6 @@ theorem C17_shared_cell_leaks :
     let b : Obj := ⟨[2, 3]⟩
     let h : Cell → Nat := fun _ => 0
     observe (applyEdits h [(2, 7)]) b ≠ observe h b ∧ disjointB a.cells b.cells = false := by
-  sorry
+  decide
 
 end TV.C17
